@@ -173,6 +173,21 @@ func runC03Case(run *runner, idx int64, cc *checkCase) string {
 			run.count("faultfree_error_skipped", 1)
 			continue
 		}
+		// Answers under a BINDING depth / width limit are legitimately nondeterministic
+		// (DESIGN §9.1): such a query has no single fault-free answer to compare with.
+		// It is judged only when no cut is logged and three fault-free runs agree.
+		binding := d0.Cuts > 0
+		for rep := 0; rep < 2 && !binding; rep++ {
+			dr, _ := engineCheckPlan(env, st, eng, q, 0, nil, 10*time.Second)
+			if dr.Cuts > 0 || dr.String() != d0.String() {
+				binding = true
+			}
+		}
+		if binding {
+			run.count("queries_under_binding_limit_not_judged", 1)
+			continue
+		}
+		d0, _ = engineCheckPlan(env, st, eng, q, 0, nil, 10*time.Second)
 		ops0 := st.opKinds()
 		N := d0.Calls
 		if N == 0 {
@@ -196,6 +211,10 @@ func runC03Case(run *runner, idx int64, cc *checkCase) string {
 			detail := map[string]any{"query": q.String(), "position": where, "persistent": plan.Persistent, "fault": fname, "op": opKind, "fault_free": d0.String(), "result": d.String()}
 			if isNoDecision(d) && fname != "canceled" && fname != "deadline" {
 				run.count("timeout_no_decision", 1) // C15 decides non-termination
+				return
+			}
+			if d.Cuts > 0 {
+				run.count("faulted_runs_under_binding_limit_not_judged", 1)
 				return
 			}
 			if res.Err != nil && res.Membership == checkgroup.IsMember {
@@ -300,6 +319,7 @@ func runC03Batch(run *runner, idx int64, cc *checkCase, env *Env, st *instrStore
 	everAllowed := make([]bool, len(batch))
 	everError := make([]bool, len(batch))
 	var N int64
+	cutsFF := env.Hook.cuts()
 	for rep := 0; rep < 3; rep++ {
 		st.reset(nil)
 		code, respBody, pt := httpDo(rr, http.MethodPost, check.BatchRoute, string(body), nil)
@@ -322,6 +342,12 @@ func runC03Batch(run *runner, idx int64, cc *checkCase, env *Env, st *instrStore
 			N = n
 		}
 	}
+	if env.Hook.cuts() != cutsFF {
+		// some entry of the fault-free batch runs under a binding limit: its answer may
+		// vary from run to run, the batch has no fault-free reference
+		run.count("batches_under_binding_limit_not_judged", 1)
+		return
+	}
 	if N > int64(run.p.pick(30, 60)) {
 		N = int64(run.p.pick(30, 60))
 	}
@@ -329,6 +355,7 @@ func runC03Batch(run *runner, idx int64, cc *checkCase, env *Env, st *instrStore
 		fk := faultKinds[int(k+idx)%len(faultKinds)]
 		for _, transport := range []string{"rest", "grpc"} {
 			st.reset(&faultPlan{FailAt: k, Persistent: k%2 == 0, Err: fk.err})
+			cutsRun := env.Hook.cuts()
 			var entries []entry
 			if transport == "rest" {
 				code, respBody, pt := httpDoCtx(env.Ctx, 5*time.Second, rr, http.MethodPost, check.BatchRoute, string(body), nil)
@@ -378,7 +405,7 @@ func runC03Batch(run *runner, idx int64, cc *checkCase, env *Env, st *instrStore
 						fmt.Sprintf("%s batch check entry %d (%s) says allowed:true together with error %q (storage call #%d failing)", transport, i, batch[i], e.Error, k),
 						fmt.Sprintf("batch/%s/k%d/e%d", transport, k, i), map[string]any{"k": k, "fault": fk.name, "entry": e})
 				}
-				if i < len(batch) && e.Allowed && e.Error == "" && !everAllowed[i] && !everError[i] {
+				if i < len(batch) && e.Allowed && e.Error == "" && !everAllowed[i] && !everError[i] && env.Hook.cuts() == cutsRun {
 					run.count("batch_entries_compared_with_fault_free", 1)
 					report("C03:batch-ALLOWED-on-fault:"+transport+":"+exprOpsInCfgShort(cc.Cfg, true),
 						fmt.Sprintf("%s batch check entry %d (%s) is answered allowed:true without an error while storage call #%d of the request fails (%s); the same batch without a fault answers this entry denied (3 runs)", transport, i, batch[i], k, fk.name),
